@@ -39,6 +39,8 @@ theorem prime_P : Nat.Prime 18446744069414584321 := by
 
 instance : Fact (Nat.Prime 18446744069414584321) := ⟨prime_P⟩
 
+theorem prime_P_lit : Nat.Prime 18446744069414584321 := prime_P
 theorem prime_P' : Nat.Prime TF.Gen.P := prime_P
+instance : Fact (Nat.Prime TF.Gen.P) := ⟨prime_P'⟩
 
 end TF
